@@ -117,9 +117,13 @@ class SG:
                 ops.append("(not)")
         return "(cond %s%s)" % (r.choice(["any", "all"]), "".join(" " + o for o in ops))
 
-    def where(self, tbl, alias=None, kw="where"):
+    def where(self, tbl, alias=None, kw="where", chain_ok=True):
         r = self.r
         out = []
+        if kw == "where" and chain_ok and r.random() < 0.1:
+            # the doc-hidden and_or_where(LogicalChainOper) - never mixed with and_where / cond_where (the code panics)
+            return ["(andorwhere %s %s)" % (r.choice(["and", "and", "and", "or"]), self.cond_expr(tbl, 2, alias))
+                    for _ in range(r.choice([1, 2, 2, 3]))]
         for _ in range(r.choice([0, 1, 1, 2])):
             if r.random() < 0.5:
                 out.append("(and%s %s)" % (kw, self.cond_expr(tbl, 2, alias)))
@@ -389,7 +393,7 @@ class SG:
             cs.append("(value %s %s)" % (h(c), e))
         if frm:
             cs.append("(andwhere (bin eq %s %s))" % (self.col(tbl, "id"), self.col("o", "id")))
-        cs += self.where(tbl)
+        cs += self.where(tbl, chain_ok=not frm)
         if (not self.portable) and not frm and r.random() < 0.35:
             if r.random() < 0.6:
                 cs.append("(orderby %s %s %s)" % (self.col(tbl, INT_COLS[tbl][1]), r.choice(["asc", "desc"]), r.choice(["first", "last"])))
